@@ -49,6 +49,7 @@ type dKind struct {
 	nilSafe   bool // ref wrapper: MarshalYAML of the Value type has a pointer receiver and starts with a nil check
 	post      []string
 	unrec     []string
+	st        *ast.StructType
 }
 
 type dPkg struct {
@@ -58,6 +59,7 @@ type dPkg struct {
 	structs map[string]*ast.StructType
 	named   map[string]ast.Expr // non-struct named types
 	methods map[string]map[string]*ast.FuncDecl
+	funcs   map[string]*ast.FuncDecl
 	file    map[ast.Node]string
 }
 
@@ -77,7 +79,7 @@ func (p *dPkg) loc(n ast.Node) string {
 
 func loadPkg(repo, name string) (*dPkg, error) {
 	p := &dPkg{name: name, fset: token.NewFileSet(), src: map[string][]byte{}, structs: map[string]*ast.StructType{},
-		named: map[string]ast.Expr{}, methods: map[string]map[string]*ast.FuncDecl{}}
+		named: map[string]ast.Expr{}, methods: map[string]map[string]*ast.FuncDecl{}, funcs: map[string]*ast.FuncDecl{}}
 	files, _ := filepath.Glob(filepath.Join(repo, name, "*.go"))
 	sort.Strings(files)
 	for _, f := range files {
@@ -111,6 +113,9 @@ func loadPkg(repo, name string) (*dPkg, error) {
 					}
 				}
 			case *ast.FuncDecl:
+				if d.Recv == nil && d.Body != nil {
+					p.funcs[d.Name.Name] = d
+				}
 				if d.Recv == nil || len(d.Recv.List) == 0 || d.Body == nil {
 					continue
 				}
@@ -207,7 +212,10 @@ func classify(pkgs map[string]*dPkg, cur string, e ast.Expr, depth int) (string,
 	case *ast.InterfaceType:
 		return "iface", ".leaf"
 	case *ast.StarExpr:
-		_, sh := classify(pkgs, cur, t.X, depth+1)
+		itc, sh := classify(pkgs, cur, t.X, depth+1)
+		if itc == "slice" && sh == ".types" {
+			return "ptypes", sh // *Types: Types.MarshalYAML writes the empty list as nil, so nil and empty both mean "no type"
+		}
 		if strings.HasPrefix(sh, ".unknown") {
 			if id, ok := t.X.(*ast.Ident); ok && id.Name == "float64" {
 				return "ptr", ".leaf"
@@ -286,6 +294,8 @@ func guardClass(cond ast.Expr, v string, txt string) string {
 		return ".lenNe0"
 	case v + "!=nil":
 		return ".neNil"
+	case v + "!=nil&&len(*" + v + ")!=0":
+		return ".neNilLenNe0"
 	case v:
 		return ".isTrue"
 	case v + "!=0":
@@ -338,6 +348,23 @@ func (p *dPkg) scanMarshal(k *dKind, fd *ast.FuncDecl) {
 			if st.Init == nil && txt == "if"+recv+"==nil{returnnil,nil}" {
 				k.nilGuard = true
 				continue
+			}
+			if st.Init != nil && st.Else != nil {
+				// if x := recv.F; x != nil { m["k"] = x } else { m["k"] = T{} }   with T the declared type of F
+				init, ok := st.Init.(*ast.AssignStmt)
+				els, isBlock := st.Else.(*ast.BlockStmt)
+				if ok && isBlock && len(init.Lhs) == 1 && len(init.Rhs) == 1 && init.Tok == token.DEFINE && len(st.Body.List) == 1 && len(els.List) == 1 {
+					v := init.Lhs[0].(*ast.Ident).Name
+					f := selField(init.Rhs[0], recv)
+					key1, rhs1, ok1 := mapAssign(st.Body.List[0])
+					key2, rhs2, ok2 := mapAssign(els.List[0])
+					if f != "" && ok1 && ok2 && key1 == key2 && squash(p.text(st.Cond)) == v+"!=nil" && squash(p.text(rhs1)) == v && k.st != nil {
+						if ft := fieldType(k.st, f); ft != nil && squash(p.text(rhs2)) == squash(p.text(ft))+"{}" {
+							k.marsh = append(k.marsh, dMarsh{key1, f, ".orEmpty"})
+							continue
+						}
+					}
+				}
 			}
 			if st.Init != nil && st.Else == nil {
 				init, ok := st.Init.(*ast.AssignStmt)
@@ -530,6 +557,141 @@ const mapUnmarshal = `{
 	return
 }`
 
+// hand-modelled pieces of the round trip (model: rtTypes, stepAddProps, entryStep / nullFix in Marshal.lean): their
+// bodies are compared with the text the model was written from; any change makes the row non-uniform
+const typesMarshalYAML = `{
+	if pTypes == nil {
+		return nil, nil
+	}
+	types := *pTypes
+	switch len(types) {
+	case 0:
+		return nil, nil
+	case 1:
+		return types[0], nil
+	default:
+		return []string(types), nil
+	}
+}`
+const typesMarshalJSON = `{
+	x, err := pTypes.MarshalYAML()
+	if err != nil {
+		return nil, err
+	}
+	return json.Marshal(x)
+}`
+const typesUnmarshal = `{
+	var strings []string
+	if err := json.Unmarshal(data, &strings); err != nil {
+		var s string
+		if err := json.Unmarshal(data, &s); err != nil {
+			return unmarshalError(err)
+		}
+		strings = []string{s}
+	}
+	*types = strings
+	return nil
+}`
+const addPropsMarshalYAML = `{
+	if x := addProps.Has; x != nil {
+		if *x {
+			return true, nil
+		}
+		return false, nil
+	}
+	if x := addProps.Schema; x != nil {
+		return x.MarshalYAML()
+	}
+	return nil, nil
+}`
+const addPropsMarshalJSON = `{
+	x, err := addProps.MarshalYAML()
+	if err != nil {
+		return nil, err
+	}
+	return json.Marshal(x)
+}`
+const addPropsUnmarshal = `{
+	var x any
+	if err := json.Unmarshal(data, &x); err != nil {
+		return unmarshalError(err)
+	}
+	switch y := x.(type) {
+	case nil:
+	case bool:
+		addProps.Has = &y
+	case map[string]any:
+		if len(y) == 0 {
+			addProps.Schema = &SchemaRef{Value: &Schema{}}
+		} else {
+			buf := new(bytes.Buffer)
+			json.NewEncoder(buf).Encode(y)
+			if err := json.NewDecoder(buf).Decode(&addProps.Schema); err != nil {
+				return err
+			}
+		}
+	default:
+		return errors.New("cannot unmarshal additionalProperties: value must be either a schema object or a boolean")
+	}
+	return nil
+}`
+const stringMapP = `{
+	var m map[string]any
+	if err := json.Unmarshal(data, &m); err != nil {
+		return nil, nil, err
+	}
+
+	origin, err := popOrigin(m, originKey)
+	if err != nil {
+		return nil, nil, err
+	}
+
+	result := make(map[string]*V, len(m))
+	for k, v := range m {
+		value, err := deepCast[V](v)
+		if err != nil {
+			return nil, nil, err
+		}
+		result[k] = value
+	}
+
+	return result, origin, nil
+}`
+const stringMapV = `{
+	var m map[string]any
+	if err := json.Unmarshal(data, &m); err != nil {
+		return nil, nil, err
+	}
+
+	origin, err := popOrigin(m, originKey)
+	if err != nil {
+		return nil, nil, err
+	}
+
+	result := make(map[string]V, len(m))
+	for k, v := range m {
+		value, err := deepCast[V](v)
+		if err != nil {
+			return nil, nil, err
+		}
+		result[k] = *value
+	}
+
+	return result, origin, nil
+}`
+const deepCastBody = `{
+	data, err := json.Marshal(value)
+	if err != nil {
+		return nil, err
+	}
+
+	var result V
+	if err = json.Unmarshal(data, &result); err != nil {
+		return nil, err
+	}
+	return &result, nil
+}`
+
 func fieldType(st *ast.StructType, name string) ast.Expr {
 	for _, f := range st.Fields.List {
 		for _, n := range f.Names {
@@ -588,7 +750,7 @@ func extractDescriptors(repo string) (string, error) {
 				}
 				continue
 			}
-			k := &dKind{pkg: pn, name: n, template: templateOf(st)}
+			k := &dKind{pkg: pn, name: n, template: templateOf(st), st: st}
 			k.hasYAML = ms["MarshalYAML"] != nil
 			switch k.template {
 			case "ref":
@@ -667,6 +829,42 @@ func extractDescriptors(repo string) (string, error) {
 			kinds = append(kinds, k)
 		}
 	}
+	// named map types with an unmarshaller of their own, and the hand-modelled pieces
+	for _, pn := range []string{"openapi3", "openapi2"} {
+		p := pkgs[pn]
+		names := []string{}
+		for n := range p.named {
+			names = append(names, n)
+		}
+		sort.Strings(names)
+		for _, n := range names {
+			mt, isMap := p.named[n].(*ast.MapType)
+			uf := p.methods[n]["UnmarshalJSON"]
+			if !isMap || uf == nil {
+				continue
+			}
+			_, sh := classify(pkgs, pn, &ast.Ident{Name: n}, 0)
+			k := &dKind{pkg: pn, name: n, template: "namedMap", valueKind: sh, hasUnm: true}
+			r := recvName(uf)
+			vt := p.text(mt.Value)
+			k.uniform = p.bodyIs(uf, "{ *"+r+", _, err = unmarshalStringMap["+vt+"](data)\n return }") ||
+				(strings.HasPrefix(vt, "*") && p.bodyIs(uf, "{ *"+r+", _, err = unmarshalStringMapP["+vt[1:]+"](data)\n return }"))
+			kinds = append(kinds, k)
+		}
+	}
+	{
+		p := pkgs["openapi3"]
+		special := func(name string, ok bool) {
+			kinds = append(kinds, &dKind{pkg: "openapi3", name: name, template: "special", uniform: ok})
+		}
+		tm, am := p.methods["Types"], p.methods["AdditionalProperties"]
+		special("Types", p.bodyIs(tm["MarshalYAML"], typesMarshalYAML) && p.bodyIs(tm["MarshalJSON"], typesMarshalJSON) && p.bodyIs(tm["UnmarshalJSON"], typesUnmarshal) &&
+			squash(p.text(p.named["Types"])) == "[]string")
+		special("AdditionalProperties", p.bodyIs(am["MarshalYAML"], addPropsMarshalYAML) && p.bodyIs(am["MarshalJSON"], addPropsMarshalJSON) && p.bodyIs(am["UnmarshalJSON"], addPropsUnmarshal))
+		special("unmarshalStringMapP", p.bodyIs(p.funcs["unmarshalStringMapP"], stringMapP))
+		special("unmarshalStringMap", p.bodyIs(p.funcs["unmarshalStringMap"], stringMapV))
+		special("deepCast", p.bodyIs(p.funcs["deepCast"], deepCastBody))
+	}
 	// emit
 	var b strings.Builder
 	b.WriteString("-- GENERATED by go/cmd/extract (table Descriptors) from the repository under test; do not edit.\n")
@@ -704,6 +902,9 @@ func extractDescriptors(repo string) (string, error) {
 		}
 		if k.template == "alias" {
 			vk = fmt.Sprintf("(.kind %q)", k.valueKind)
+		}
+		if k.template == "special" {
+			vk = ".leaf"
 		}
 		sep := ","
 		if i == len(kinds)-1 {
